@@ -3,8 +3,35 @@ use metrics_exporter_dogstatsd::verif::{Counter, Gauge};
 use std::sync::{Arc, Mutex};
 use vreplay::*;
 
+/// State::flush history: per flush cycle the counter is either incremented before the flush ("active") or left alone.
+/// Independent oracle on the payloads: a cycle must carry the counter iff it was active or it is the first idle cycle after activity.
+fn flush_history(plan: &Plan) -> ! {
+    let n = plan.inputs.get("n").copied().unwrap_or(0) as usize;
+    let mut h = metrics_exporter_dogstatsd::verif::FlushHarness::new(false);
+    let key = metrics::Key::from_static_name("c10_probe");
+    let c = h.counter(&key);
+    let mut v: Vec<&str> = vec![];
+    let mut idle = false;
+    for i in 0..n {
+        let active = plan.inputs.get(&format!("active{}", i)).copied().unwrap_or(0) != 0;
+        if active { c.increment(3); }
+        let payloads = h.flush();
+        let lines: Vec<String> = payloads.iter().map(|p| String::from_utf8_lossy(p).to_string()).filter(|l| l.starts_with("c10_probe:")).collect();
+        let expect = active || !idle;
+        println!("cycle {} active={} payloads {:?} (expected {})", i, active, lines, if expect { "one" } else { "none" });
+        if lines.len() != expect as usize { v.push("idle_protocol"); }
+        if let Some(l) = lines.first() {
+            let want = if active { "c10_probe:3|c" } else { "c10_probe:0|c" };
+            if !l.starts_with(want) { v.push("sends_the_flushed_delta"); }
+        }
+        idle = !active;
+    }
+    finish(&v, plan)
+}
+
 fn main() {
     let plan = load_plan(&std::env::args().nth(1).expect("plan"));
+    if plan.scenario == "c10_flush_history" { flush_history(&plan); }
     let a = plan.inputs.get("a").copied().unwrap_or(0);
     let b = plan.inputs.get("b").copied().unwrap_or(0);
     install(plan.sched.clone());
